@@ -36,3 +36,8 @@ Theorem C17_within_limit_truncate_is_noop : forall docs, wf_docs docs -> forall 
 Proof. exact C17_unaltered. Qed.
 
 Example C17_limit_value : MAX_POSN = 262143. Proof. reflexivity. Qed.
+
+(* Assumptions of the remaining named statements of this file (the gate requires one per statement). *)
+Print Assumptions C17_truncate_is_index_of_prefix.
+Print Assumptions C17_short_documents_unaltered.
+Print Assumptions C17_within_limit_truncate_is_noop.
